@@ -330,11 +330,230 @@ def fs_absolute_cases(rng, n):
                 c += ['open 0 %s %d' % (H(p), rng.choice([1, 2, 3, 6, 11])), 'write 0 %s' % H(b'ABS'), 'close 0', 'open 0 %s 1' % H(p), 'readall 0', 'close 0']
             else:
                 c.append('funlink ' + H(p))
+            if rng.random() < 0.35:
+                c.append(rng.choice(['abspath ', 'readallp ', 'fexists ']) + H(ap(rand_fs_path(rng, dirs, files, lnks, fresh=0.3))))
+            if rng.random() < 0.12:
+                c.append('chdir ' + H(rng.choice(['/', '/g1', '/g1/g2/g3/out', '/g1/g2/g3/in/a', '/nowhere'])))
+                c += ['cwd', 'abspath ' + H(rng.choice(['x', 'g1', '../x', '.'])), 'dlist %s %s 0' % (H(rng.choice(['', '/', '/g1/g2/g3'])), H(rng.choice(['', '*', 'g*'])))]
+                break
         cases.append(c)
     # the root itself and its children: the empty-parent branch of Directory::create
     for p in ['/', '//', '/x', '/x/', '//x', '/x/y', '/x/y/z/', '/g1', '/g1/n', '/../x', '/./x', '/g1/../y/z']:
         cases.append(['@fsroot'] + sentinel() + ['create ' + H(p)])
         cases.append(['@fsroot'] + sentinel() + ['create ' + H(p), 'exists ' + H(p), 'dunlink %s 0' % H(p)])
+    return cases
+
+
+# ---- round 3: readAll(path), exists, flush, getAbsolutePath / change, enumeration, purge, faults ----
+
+PATTERNS = ['', '', '*', '*', 'a*', '*b', '*.txt', '?', '??', 'l*', '.*', 'f', 'a?c', '*.*', 'x.*', '**', '*a*', 'zz*', 'ab', '?*']
+ENUM_NAMES = ['a', 'b', 'ab', 'abc', 'f', 'x.txt', 'y.txt', '.hid', 'l', 'l2', 'g']
+
+
+def enum_tree(rng):
+    """a tree with more name variety: (lines, dirs, files, links)"""
+    lines, dirs, files, lnks = [], [], [], []
+    taken = set()
+    for _ in range(rng.randrange(0, 4)):
+        parent = rng.choice([''] + dirs)
+        p = (parent + '/' if parent else '') + rng.choice(['a', 'b', 'ab', 'abc', 'g', '.hid'])
+        if p not in taken and p.count('/') < 3:
+            taken.add(p); dirs.append(p); lines.append('mkd ' + H(p))
+    for _ in range(rng.randrange(0, 6)):
+        parent = rng.choice(['', ''] + dirs)
+        p = (parent + '/' if parent else '') + rng.choice(ENUM_NAMES)
+        if p in taken:
+            continue
+        taken.add(p)
+        k = rng.random()
+        if k < 0.5:
+            files.append(p); lines.append('mkf %s %s' % (H(p), H(rng.choice(CONTENTS))))
+        else:
+            lnks.append(p)
+            lines.append('mkl %s %s' % (H(rng.choice(LINK_TARGETS + ['b', 'ab', '../a', '.', '..', '../out/t', '../out/t', '../../out/t'])), H(p)))
+    return lines, dirs, files, lnks
+
+
+def fs_enum_cases(rng, n):
+    """Directory::open / read / close: patterns, dirsOnly, entry types (links to directories, to files, dangling)"""
+    cases = []
+    for i in range(n):
+        lines, dirs, files, lnks = enum_tree(rng)
+        c = ['@fs'] + sentinel() + lines
+
+        def where():
+            r = rng.random()
+            if r < 0.3:
+                return rng.choice(['', '.', './', '..', '../in'])
+            if r < 0.7 and dirs:
+                return rng.choice(dirs) + rng.choice(['', '', '/', '/.'])
+            if r < 0.85 and (lnks or files):
+                return rng.choice(lnks + files)
+            return rng.choice(['../out', '../out/s', 'missing', 'a/missing', '../out/k'])
+        for _ in range(rng.randrange(1, 5)):
+            k = rng.random()
+            if k < 0.6:
+                c.append('dlist %s %s %d' % (H(where()), H(rng.choice(PATTERNS)), 1 if rng.random() < 0.3 else 0))
+            else:
+                # the object protocol: open twice, read past the end, open at the end, close, read closed, reuse
+                o = rng.randrange(4)
+                w = where()
+                c.append('dopen %d %s %s %d' % (o, H(w), H(rng.choice(PATTERNS)), rng.randrange(2)))
+                if rng.random() < 0.4:
+                    c.append('dopen %d %s %s 0' % (o, H(where()), H('')))
+                if rng.random() < 0.4 and not w.startswith('../out'):
+                    # what a link leads to changes between open and read (the directory that is being
+                    # enumerated is left alone: what readdir makes of a change is the kernel's business)
+                    c.append(rng.choice(['mkd ' + H('../out/t'), 'mkf %s %s' % (H('../out/t'), H(b'x'))]))
+                c.append('dreadall %d' % o)
+                if rng.random() < 0.5:
+                    c.append('dreadall %d' % o)
+                if rng.random() < 0.4:
+                    c.append('dopen %d %s %s 0' % (o, H(where()), H('*')))
+                if rng.random() < 0.7:
+                    c.append('dclose %d' % o)
+                    if rng.random() < 0.5:
+                        c.append('dreadall %d' % o)
+                    if rng.random() < 0.5:
+                        c += ['dopen %d %s %s %d' % (o, H(where()), H(rng.choice(PATTERNS)), rng.randrange(2)), 'dreadall %d' % o]
+        cases.append(c)
+    return cases
+
+
+def fs_misc_cases(rng, n):
+    """static readAll(path), File::exists, flush, getAbsolutePath / getCurrentDirectory / change"""
+    cases = []
+    for i in range(n):
+        lines, dirs, files, lnks = rand_tree(rng)
+        c = ['@fs'] + sentinel() + lines
+        for _ in range(rng.randrange(2, 7)):
+            k = rng.random()
+            p = rand_fs_path(rng, dirs, files, lnks, fresh=0.3)
+            if k < 0.25:
+                c.append('readallp ' + H(p))
+            elif k < 0.45:
+                c.append('fexists ' + H(p))
+            elif k < 0.6:
+                c.append('abspath ' + H(rng.choice([p, p, p, '', '.', '..', 'c:/x', '\\x', './' + p])))
+            elif k < 0.65:
+                c.append('cwd')
+            elif k < 0.8:
+                fl = rng.choice([1, 2 | 8, 3, 6, 3 | 8, 1])
+                c.append('open 0 %s %d' % (H(p), fl))
+                c += handle_history(rng, 0, rng.randrange(0, 3))
+                c.append('flush 0')
+                c += handle_history(rng, 0, rng.randrange(0, 2))
+                if rng.random() < 0.5:
+                    c.append('readall 0')
+                c.append('close 0')
+                if rng.random() < 0.2:
+                    c.append('flush 0')
+                c.append('readallp ' + H(p))
+            else:
+                # change the current directory, then look at it from there; nothing that names the new
+                # current directory or a directory above it is removed or renamed afterwards
+                d = rng.choice(dirs + ['.', '../out', '../out/s', 'missing'] + lnks + files)
+                c.append('chdir ' + H(d))
+                c.append('cwd')
+                for _ in range(rng.randrange(1, 4)):
+                    q = rng.choice(['f', 'b', 'new', '../f', '.', '..', 'g', '../a', 'b/f', 'keep'])
+                    c.append(rng.choice(['abspath ', 'fexists ', 'readallp ', 'exists ']) + H(q))
+                if rng.random() < 0.5:
+                    c.append('create ' + H(rng.choice(['n1', 'n1/n2', './n3'])))
+                    c.append('dlist %s %s 0' % (H(''), H('')))
+                break
+        cases.append(c)
+    return cases
+
+
+def chain(rng):
+    """a directory chain with siblings here and there: set-up lines in path order, and the chain's directories"""
+    depth = rng.randrange(1, 5)
+    names, paths, kinds = [], [], {}
+    cur = ''
+    for _ in range(depth):
+        cur = (cur + '/' if cur else '') + rng.choice(['a', 'b', 'c'])
+        names.append(cur)
+        kinds[cur] = ('d',)
+    for d in list(names) + ['']:
+        for _ in range(rng.randrange(0, 3)):
+            if rng.random() < 0.45:
+                q = (d + '/' if d else '') + rng.choice(['f', 'g', 'x', 'l', 'k', 'e'])
+                if q not in kinds:
+                    kinds[q] = rng.choice([('f', rng.choice(CONTENTS)), ('f', b'q'), ('l', rng.choice(['../out/s', '../out', 'f', '.', 'nowhere'])), ('d',), ('d',)])
+    # something below a sibling directory now and then
+    for q in [q for q, v in kinds.items() if v[0] == 'd' and q not in names]:
+        if rng.random() < 0.5:
+            kinds[q + '/y'] = ('f', b'y')
+    lines = []
+    for q in sorted(kinds, key=lambda x: x.encode()):
+        v = kinds[q]
+        lines.append('mkd ' + H(q) if v[0] == 'd' else ('mkf %s %s' % (H(q), H(v[1])) if v[0] == 'f' else 'mkl %s %s' % (H(v[1]), H(q))))
+    return lines, names, kinds
+
+
+def fs_purge_cases(rng, n):
+    """Directory::purge: the directory and the ancestors it leaves empty, up to the current directory"""
+    cases = []
+    for i in range(n):
+        lines, names, kinds = chain(rng)
+        c = ['@fs'] + sentinel() + lines
+        for _ in range(rng.randrange(1, 3)):
+            r = rng.random()
+            if r < 0.6:
+                p = rng.choice(names)
+            elif r < 0.8:
+                p = rng.choice(sorted(kinds))
+            else:
+                p = rng.choice(['../out/s', '../out/n', 'missing', names[-1] + '/', './' + names[-1], names[0] + '/../' + names[-1], 'a\\b',
+                                '../in/' + names[-1]])
+            c.append('purge %s %d' % (H(p), 1 if rng.random() < 0.7 else 0))
+        cases.append(c)
+    # empty chains of every depth, from every level, both flags
+    for depth in range(1, 5):
+        ch = ['/'.join(['a', 'b', 'c', 'd'][:k + 1]) for k in range(depth)]
+        for start in ch:
+            for rec in (0, 1):
+                cases.append(['@fs'] + sentinel() + ['mkd ' + H(q) for q in ch] + ['purge %s %d' % (H(start), rec)])
+                cases.append(['@fs'] + sentinel() + ['mkd ' + H(q) for q in ch] + ['mkf %s %s' % (H('a/keep'), H(b'k')), 'purge %s %d' % (H(start), rec)])
+    if os.geteuid() == 0:
+        for p in ['/x/y/z', '/x', '/g1/g2/g3/in/a/b', '//x//y', '/x/y/']:
+            cases.append(['@fsroot'] + sentinel() + ['create ' + H(p), 'purge %s 1' % H(p)])
+            cases.append(['@fsroot'] + sentinel() + ['create ' + H(p), 'purge %s 0' % H(p), 'exists ' + H('/x')])
+    return cases
+
+
+FAULT_TREES = [
+    ['mkd ' + H('a')],
+    ['mkd ' + H('a'), 'mkf %s %s' % (H('a/f'), H(b'1'))],
+    ['mkd ' + H('a'), 'mkd ' + H('a/b'), 'mkf %s %s' % (H('a/b/f'), H(b'1')), 'mkf %s %s' % (H('a/c'), H(b'2')), 'mkd ' + H('a/d'),
+     'mkl %s %s' % (H('../../out/s'), H('a/l'))],
+    ['mkd ' + H('a'), 'mkd ' + H('a/b'), 'mkd ' + H('a/b/c'), 'mkf %s %s' % (H('a/b/c/f'), H(b'1')), 'mkf %s %s' % (H('a/b/g'), H(b'2')),
+     'mkf %s %s' % (H('a/z'), H(b'3'))],
+]
+
+
+def fs_fault_cases(rng, n):
+    """Directory::unlink / purge with one failing system call (rmdir, opendir, readdir, unlink): every
+    position on a few fixed trees, random positions on random trees (entries created in name order)"""
+    cases = []
+    for tree in FAULT_TREES:
+        for k in range(0, 4 + 5 * len(tree)):
+            for rec in (1, 0) if k < 2 else (1,):
+                cases.append(['@fs'] + sentinel() + tree + ['fault %d' % k, 'dunlink %s %d' % (H('a'), rec), 'dunlink %s 1' % H('a')])
+    for tree in FAULT_TREES[1:]:
+        deep = 'a/b' if len(tree) > 2 else 'a'
+        for k in range(0, 14):
+            cases.append(['@fs'] + sentinel() + tree + ['fault %d' % k, 'purge %s 1' % H(deep), 'exists ' + H('a')])
+    for i in range(n):
+        lines, names, kinds = chain(rng)
+        c = ['@fs'] + sentinel() + lines
+        p = rng.choice(names)
+        c.append('fault %d' % rng.randrange(0, 16))
+        c.append('%s %s 1' % (rng.choice(['dunlink', 'dunlink', 'purge']), H(p)))
+        if rng.random() < 0.5:
+            c.append('dunlink %s 1' % H(names[0]))
+        cases.append(c)
     return cases
 
 
@@ -436,6 +655,7 @@ def fs_text_judge(ops, obs):
     tree = {'in': ('d',), 'out': ('d',)}
     H = {}
     relaxed_copy = None
+    faulted = False
     for k, line in enumerate(ops):
         if k >= len(obs):
             return None
@@ -505,9 +725,85 @@ def fs_text_judge(ops, obs):
                     raise Bad('result', 'unexpected answer ' + res[0])
             elif op == 'close':
                 H.pop(int(t[1]) & 7, None)
+            elif op == 'fault':
+                faulted = True
+            elif op in ('cwd', 'abspath'):
+                txt = unhex(res[0])
+                arg_ = unhex(t[1]) if op == 'abspath' else b''
+                if not txt.startswith(b'/') and not (op == 'abspath' and arg_[:1] in (b'/', b'\\') or arg_[1:3] in (b':/', b':\\')):
+                    raise Bad('absolute-text', 'the answer `%s` is not an absolute path' % txt[:60])
+                if op == 'abspath' and arg_:
+                    if arg_[:1] == b'/' and txt != arg_:
+                        raise Bad('absolute-changed', 'an absolute path comes back changed')
+                    if arg_[:1] not in (b'/', b'\\') and arg_[1:3] not in (b':/', b':\\') and not txt.endswith(b'/' + arg_):
+                        raise Bad('absolute-suffix', 'the absolute path does not end in the relative one')
+                    if res[1:] != ['1', '1']:
+                        raise Bad('absolute-denotes', 'the kernel takes `%s` and `%s` to different places (stat, lstat: %s)' % (arg_[:40], txt[:60], ' '.join(res[1:])))
+            elif op == 'chdir':
+                S = pr.get('s', '-')
+                if not S.startswith('?'):
+                    isdir = S in GUARD_DIRS or (S in tree and tree[S][0] == 'd')
+                    if res[0] != ('1' if isdir else '0'):
+                        raise Bad('change-result', 'Directory::change answers %s for `%s`' % (res[0], S))
+            elif op == 'fexists':
+                S = pr.get('s', '-')
+                if not S.startswith('?') and res[0] != ('0' if S == '-' else '1'):
+                    raise Bad('exists-result', 'File::exists answers %s, lstat finds `%s`' % (res[0], S))
+            elif op == 'readallp':
+                S = pr.get('s', '-')
+                if not S.startswith('?'):
+                    if S in tree and tree[S][0] == 'f':
+                        if res != ['1', render(tree[S][1])]:
+                            raise Bad('readall-path-bytes', 'readAll(path) gives `%s`, the file holds `%s`' % (' '.join(res)[:60], render(tree[S][1])))
+                    elif res[0] != '0':
+                        raise Bad('readall-path-result', 'readAll(path) says true for something that is no regular file (%s)' % S)
+            elif op in ('dlist', 'dopen', 'dreadall', 'dclose'):
+                if op == 'dlist':
+                    S = pr.get('s', '-')
+                    if not S.startswith('?'):
+                        isdir = S in GUARD_DIRS or S.startswith('!') or (S in tree and tree[S][0] == 'd')
+                        if res[0] != ('1' if isdir else '0'):
+                            raise Bad('enum-open', 'Directory::open answers %s for `%s`' % (res[0], S))
+                    if res[0] == '1' and S in tree:
+                        import fnmatch
+                        pat, only = unhex(t[2]), t[3] == '1'
+                        got = {}
+                        for x in res[1:-1]:
+                            if x == '-':
+                                continue
+                            nm, _, ty = x.partition(':')
+                            nm = unhex(nm).decode('latin-1')
+                            if nm in got:
+                                raise Bad('enum-twice', 'the entry `%s` is reported twice' % nm)
+                            got[nm] = ty
+                        if res[-1] != 'end=0':
+                            raise Bad('enum-after-end', 'read says true after it said false')
+                        kids = {q[len(S) + 1:]: v for q, v in tree.items() if q.startswith(S + '/') and '/' not in q[len(S) + 1:]}
+                        for nm, v in kids.items():
+                            sel = (not pat) or fnmatch.fnmatchcase(nm, pat.decode('latin-1'))
+                            want = None
+                            if sel and v[0] == 'd':
+                                want = 'd'
+                            elif sel and v[0] == 'f' and not only:
+                                want = 'f'
+                            elif sel and v[0] == 'l' and not only:
+                                want = got.get(nm, 'missing')         # what a link leads to: left to the model
+                                if want == 'missing':
+                                    raise Bad('enum-missing', 'the entry `%s` is not reported' % nm)
+                            if want != got.get(nm):
+                                raise Bad('enum-entry', 'entry `%s` (%s): reported as %s, expected %s' % (nm, v[0], got.get(nm), want))
+                        for nm in got:
+                            if nm not in kids:
+                                raise Bad('enum-alien', 'reported `%s`, which is no entry of the directory' % nm)
+            elif op == 'flush':
+                hh = H.get(int(t[1]) & 7)
+                if hh is not None and hh['path'] in tree and pr.get('t') == hh['path'] and res[0] != '1':
+                    raise Bad('flush-result', 'flush on an open handle says false')
             elif op in ('write', 'writebig', 'read', 'readall', 'seek', 'size'):
                 h = int(t[1]) & 7
                 hh = H.get(h)
+                if hh is not None and hh['dir'] and op == 'readall' and res[0] != '0':
+                    raise Bad('readall-directory', 'readAll on a handle that is open on a directory says true')
                 if hh is not None and (hh['dir'] or hh['path'] not in tree or tree[hh['path']][0] != 'f' or pr.get('t') != hh['path']):
                     H.pop(h)
                     hh = None
@@ -644,8 +940,36 @@ def fs_text_judge(ops, obs):
                         raise Bad('unlink-non-recursive', 'non-recursive Directory::unlink removed a directory that was not empty')
                     exp = {q: v for q, v in tree.items() if not under(q, F)}
                 elif rec:
-                    # a recursive unlink that fails may have removed part of the tree; nothing new, nothing altered
+                    # a recursive unlink that fails may have removed part of the tree; nothing new, nothing
+                    # altered, and nothing outside the directory the path names
                     exp = {q: v for q, v in tree.items() if tok_of(q, v) in post_toks}
+                    F = pr.get('s', '-')
+                    out_ = [q for q in tree if q not in exp and not (F in tree and under(q, F))]
+                    if out_ and not (t[1].endswith('2f') or t[1].endswith('2e')):
+                        raise Bad('unlink-failed-outside', 'a failed recursive unlink removed `%s`, outside the directory it was given' % out_[0][:60])
+                faulted = False
+            elif op == 'purge':
+                rec = t[2] == '1'
+                F = pr.get('s', '-')
+                if res[0] == '1':
+                    if F not in tree or tree[F][0] != 'd':
+                        raise Bad('purge-not-a-directory', 'Directory::purge says true but the path itself named no directory (%s)' % F)
+                    if not rec and any(under(q, F) and q != F for q in tree):
+                        raise Bad('purge-non-recursive', 'non-recursive Directory::purge removed a directory that was not empty')
+                    exp = {q: v for q, v in tree.items() if not under(q, F)}
+                    # on top of that only directories that are empty now may go (the ancestors; which ones: the model)
+                    for q in sorted((q for q in exp if tok_of(q, exp[q]) not in post_toks), key=len, reverse=True):
+                        if exp[q][0] != 'd' or any(under(x, q) and x != q for x in exp):
+                            raise Bad('purge-removes-more', 'Directory::purge also removed `%s`, which is no empty directory' % q[:60])
+                        if not under(F, q):
+                            raise Bad('purge-removes-elsewhere', 'Directory::purge also removed `%s`, which is no ancestor of the directory' % q[:60])
+                        del exp[q]
+                elif rec:
+                    exp = {q: v for q, v in tree.items() if tok_of(q, v) in post_toks}
+                    out_ = [q for q in tree if q not in exp and not (F in tree and under(q, F))]
+                    if out_ and not (t[1].endswith('2f') or t[1].endswith('2e')):
+                        raise Bad('purge-failed-outside', 'a failed purge removed `%s`, outside the directory it was given' % out_[0][:60])
+                faulted = False
             else:
                 return None
             # the tree afterwards must be exactly the expected one
@@ -654,7 +978,7 @@ def fs_text_judge(ops, obs):
                 new = sorted(post_toks - exp_toks)
                 gone = sorted(exp_toks - post_toks)
                 failed = res[0] in ('0', '-1') and op not in ('read', 'seek', 'size')
-                if failed and op != 'dunlink' and op != 'create':
+                if failed and op not in ('dunlink', 'create', 'purge'):
                     rule = 'failure-leaves-tree-changed' if (gone or any(x.partition(':')[0] in tree for x in new)) else 'failure-leaves-new-name'
                 elif any(x.startswith('!') or under(x.partition(':')[0], 'out') for x in new + gone):
                     rule = 'tree-outside'
@@ -752,7 +1076,7 @@ class C19(Check):
                    'getRelativePath: same kind of from/to, simplifyPath(from) has no leading ".."',
                    'Directory::create false => not-exists: path text without backslash; create_succeeds / unlink theorems: relative texts of proper names through real directories']
 
-    FS_SETUP = ('mkd', 'mkf', 'mkl')
+    FS_SETUP = ('mkd', 'mkf', 'mkl', 'mkfbig', 'inject', 'fault')
 
     def nontrivial(self, case, obs):
         if case and case[0].startswith('@fs'):
@@ -873,6 +1197,14 @@ class C19(Check):
                           note='File::copy with short, empty and failing sendfile calls (outcome oracle), sources up to 128 KiB'))
         out.append(Stream('fs-big', fs_big_cases(rng, 48 if thorough else 12, thorough),
                           note='contents of 64 KiB .. %s through readAll / read / write / append / copy / rename' % ('1 MiB' if thorough else '200 KB')))
+        out.append(Stream('fs-enum', fs_enum_cases(rng, 1500 if thorough else 250),
+                          note='Directory::open / read / close: patterns, dirsOnly, links to directories / files / nothing, the object protocol'))
+        out.append(Stream('fs-misc', fs_misc_cases(rng, 1500 if thorough else 250),
+                          note='static readAll(path), File::exists, flush, getAbsolutePath / getCurrentDirectory / change'))
+        out.append(Stream('fs-purge', fs_purge_cases(rng, 1500 if thorough else 250),
+                          note='Directory::purge on chains with siblings, links, files; every empty chain of depth <= 4'))
+        out.append(Stream('fs-faults', fs_fault_cases(rng, 1200 if thorough else 200),
+                          note='Directory::unlink / purge with one failing rmdir / opendir / readdir / unlink (interposed), every position on %d fixed trees' % len(FAULT_TREES)))
         if os.geteuid() == 0:
             out.append(Stream('fs-absolute', fs_absolute_cases(rng, 1200 if thorough else 250),
                               note='absolute path texts and link targets inside a chroot (root = the model\'s root), the root directory and its children'))
